@@ -9,7 +9,6 @@ package db
 import (
 	"errors"
 	"fmt"
-	"reflect"
 	"strings"
 
 	"github.com/alicebob/sqlittle/sql"
@@ -230,11 +229,11 @@ func (st *Schema) toIndexColumns(ci []sql.IndexedColumn) []IndexColumn {
 // add an index. This is a noop if an equivalent index already exists. Returns
 // whether the indexed got added.
 func (st *Schema) addIndex(pk bool, name string, cols []IndexColumn) bool {
-	if reflect.DeepEqual(st.PK, cols) {
+	if sameIndexColumns(st.PK, cols) {
 		return false
 	}
 	for _, ind := range st.Indexes {
-		if reflect.DeepEqual(ind.Columns, cols) {
+		if sameIndexColumns(ind.Columns, cols) {
 			if pk {
 				st.PrimaryKey = ind.Index
 			}
@@ -251,11 +250,33 @@ func (st *Schema) addIndex(pk bool, name string, cols []IndexColumn) bool {
 	return true
 }
 
+// sameIndexColumns is true if a constraint index on `a` makes one on `b`
+// redundant. SQLite compares the columns and their collations; the sort order
+// is not relevant.
+func sameIndexColumns(a, b []IndexColumn) bool {
+	collate := func(c string) string {
+		if c == "" {
+			return DefaultCollate
+		}
+		return strings.ToLower(c)
+	}
+	if len(a) != len(b) {
+		return false
+	}
+	for i := range a {
+		if !strings.EqualFold(a[i].Column, b[i].Column) ||
+			collate(a[i].Collate) != collate(b[i].Collate) {
+			return false
+		}
+	}
+	return true
+}
+
 // sets the PK key (for non-rowid tables). Deletes any duplicate indexes.
 func (st *Schema) setPK(cols []IndexColumn) {
 	st.PK = cols
 	for i, ind := range st.Indexes {
-		if reflect.DeepEqual(ind.Columns, cols) {
+		if sameIndexColumns(ind.Columns, cols) {
 			st.Indexes = append(st.Indexes[:i], st.Indexes[i+1:]...)
 			if len(st.Indexes) == 0 {
 				st.Indexes = nil // to make test diffs easier
